@@ -10,6 +10,14 @@ def cases(tier):
         L.append(tv_case('C06', fx))
         L.append(fsm_case('C06', fx, 'plan_step', ['P_C06', 'ENTRY=17', 'CB_BUDGET=0', 'CB_KINDS=0'], timeout=1200 * T, witness=True, nreq=2, budget=0,
                           unwind_extra=[(r'vf_plan_|PlanT|CPlanT|updatePlan|clearTasks', max(5, fx['T'].ns + 2))]))
+    # nested plan-owning regions: the plan sits on region G (below a composite / below an orthogonal region after a plain sibling)
+    for fam in ['fpn', 'fpo']:
+        o = dict(sublimit=2, features=['PLANS', 'TRANSITION_HISTORY'], taskcap=3, callbacks=['life', 'update1', 'plan', 'select'], act=['update'], kinds=0)
+        fx = fixture('C06', fam, o)
+        g = [n.sid for n in fx['T'].states if n.name == 'G'][0]
+        L.append(fsm_case('C06', fx, 'nested_plan_step', ['P_C06', 'ENTRY=17', 'CB_BUDGET=0', 'CB_KINDS=0', 'PLAN_HEAD=%d' % g, 'PLAN_NOPROCESS'], timeout=1200 * T, witness=True, nreq=2, budget=0,
+                          unwind_extra=[(r'clearTasks', fx['T'].ns + 2), (r'vf_plan_|PlanT|CPlanT|updatePlan', 5)]))
+    mark_cover(L, ['c06.*.plan_step', 'c06.*.nested_plan_step'])
     return L
 
 def run(tier, seed):
